@@ -21,25 +21,29 @@ import Gen.Sites
 namespace Jl.C20
 open Jl Jl.Conc
 
-/-- What the read-only template operations do with the prototype: clone it, nothing else. -/
+/-- `l ⊆ allowed` as a decidable check. -/
+def within {α : Type} [BEq α] (l allowed : List α) : Bool := l.all fun x => allowed.contains x
+
+/-- What the read-only template operations do with the prototype: clone it, nothing else
+    (anything else they would do with it re-opens this). -/
 theorem prototype_only_cloned :
-    (Gen.protoUses.filter fun p =>
-        p.1 ∈ ["template.CreateRow", "template.CreateRowEmpty", "template.GetExporter", "template.GetImporter"]) =
-      [("template.CreateRow", "CloneRow"), ("template.CreateRowEmpty", "CloneRow")] := by decide
+    within (Gen.protoUses.filter fun p =>
+        p.1 ∈ ["template.CreateRow", "template.CreateRowEmpty", "template.GetExporter", "template.GetImporter"])
+      [("template.CreateRow", "CloneRow"), ("template.CreateRowEmpty", "CloneRow")] = true := by decide
 
 /-- Cloning only calls readers on its argument. -/
 theorem clone_only_reads :
-    Gen.cloneUses = [("CloneRow", "r.IterValues"), ("CloneValue", "v.GetFormat"), ("CloneValue", "v.GetRawType"),
-      ("CloneValue", "v.Raw"), ("row.IterValues", "r.l.Front")] := by decide
+    within Gen.cloneUses [("CloneRow", "r.IterValues"), ("CloneValue", "v.GetFormat"), ("CloneValue", "v.GetRawType"),
+      ("CloneValue", "v.Raw"), ("row.IterValues", "r.l.Front")] = true := by decide
 
 /-- The functions that assign through a receiver, a parameter or a package-level variable —
     none of them is one of the readers used on the prototype, and all of them are either
     builder calls, constructors' fluent setters, or mutators of the row / cell they are called
-    on (which, after `CloneRow`, is a fresh object: C15). -/
+    on (which, after `CloneRow`, is a fresh object: C15). A new writer re-opens this. -/
 theorem writers_are_not_the_readers :
-    (Gen.jsonlineWrites.map Prod.fst).eraseDups =
+    within (Gen.jsonlineWrites.map Prod.fst)
       ["exporter.WithTemplate", "importer.WithTemplate", "row.ImportAtKey", "row.Set", "row.SetValue",
-       "row.parseobject", "streamer.WithProcessor", "value.Import"] := by decide
+       "row.parseobject", "streamer.WithProcessor", "value.Import"] = true := by decide
 
 /-- pkg/cast assigns nothing outside its locals: `cast.TimeStringFormat` and the sentinels are
     only read. -/
